@@ -232,7 +232,7 @@ class Adapter(object):
 
 def timelines(tier):
     """list of event lists; event = (kind, instance index or unit index)"""
-    n = 4 if tier == "quick" else 5
+    n = 4 if tier == "quick" else 6
     out = []
     kinds = [("access", 0), ("access", 1), ("keepalive", 0), ("keepalive", 1), ("metrics", 0), ("fullmetrics", 0),
              ("create", 1), ("ensure", 0)]
